@@ -24,7 +24,9 @@ RULE = ("states = scheduling points visited; transitions = complete schedules (t
 A = '/* exp A\n   multi-line */ def exp { salt: "sa" /* c1 */ /* c2 */ splitters: uid\n if f == 1 { return "A1" weighted 1, "A2" weighted 2 } // tail\n else { return "A3" weighted 1 } }'
 B = 'def exp { /* B */ splitters: uid return "B1" weighted 1, "B2" weighted 1 /* end\n */ }'
 C = '// other\ndef other { salt: "sc" splitters: uid if f in (1, 2) { return "C1" weighted 3, "C2" weighted 1 } }'
-TEXTS = {"A": A, "B": B, "C": C}
+TA = '/* c */ def exp { splitters: uid return "TA" weighted 1 }'
+TB = 'def exp { /* d\n */ splitters: uid return "TB" weighted 1 }'
+TEXTS = {"A": A, "B": B, "C": C, "TA": TA, "TB": TB}
 INPUTS = [{"uid": 1, "f": 1}, {"uid": "x", "f": 0}, {"uid": 7, "f": 2}]
 TABLE = {}
 
@@ -37,7 +39,7 @@ def prepare():
         if b[0] != "ok":
             raise HarnessFault(f"harness text {k} does not compile sequentially: {b}")
         TABLE[k] = [norm(impl.call(b[1], x)) for x in INPUTS]
-    if len({repr(TABLE[k]) for k in TABLE}) < 3:
+    if len({repr(TABLE[k]) for k in ("A", "B", "C")}) < 3:
         raise HarnessFault("harness texts are not distinguishable on the probe inputs")
 
 
@@ -73,7 +75,7 @@ def op_recompile(ex, tid, ev, key):
 def harness(name):
     """-> make_bodies for xsched.run_schedule"""
     if name.startswith("H1"):
-        keys = ["A", "B", "C"][: int(name[2:] or 2)]
+        keys = ["TA", "TB"] if name == "H1t" else ["A", "B", "C"][: int(name[2:] or 2)]
 
         def make():
             ctx = {"results": {}, "kind": "H1", "keys": keys}
@@ -189,8 +191,9 @@ def _work(units):
     return out
 
 
-def root_units(hname, mode, mods, bound, cap):
-    """run the default schedule once in this process, then one unit per first deviation"""
+def plan_units(res, entry):
+    """default schedule once in this process (twice: replay determinism), then one unit per first deviation"""
+    hname, mode, mods, bound, cap = entry
     modules = xsched.CORE_MODULES if mods == "core" else xsched.DEEP_MODULES
     with xsched.Instrument(mode, modules):
         ex, _ = xsched.run_schedule(harness(hname), [])
@@ -199,41 +202,42 @@ def root_units(hname, mode, mods, bound, cap):
         raise HarnessFault(f"{hname}/{mode}: {ex.fault or ex2.fault}")
     if [p[:3] for p in ex.points] != [p[:3] for p in ex2.points]:
         raise HarnessFault(f"{hname}/{mode}: replaying the same schedule twice gave different point sequences")
-    units = [(hname, mode, mods, bound, cap, ())]
-    return units, len(ex.points)
+    res.set(f"points_default_schedule/{hname}/{mode}/{mods}", len(ex.points))
+    choices = [p[3] for p in ex.points]
+    units = [(hname, mode, mods, bound, cap, "ROOT")]
+    for i, (_t, _l, n_en, _c, is_exit) in enumerate(ex.points):
+        cost = xsched.preemptions(ex.points, i) + (0 if is_exit else 1)
+        if cost > bound:
+            continue
+        for alt in range(1, n_en):
+            units.append((hname, mode, mods, bound, cap, tuple(choices[:i] + [alt])))
+    return units
+
+
+ESCALATION = {"quick": [("H1t", "line", "deep", 1, None)], "thorough": [("H1t", "line", "deep", 1, None), ("H12", "line", "deep", 1, None), ("H1t", "line", "deep", 2, 40)]}
 
 
 def run(res, tier):
     prepare()
     units = []
-    for (hname, mode, mods, bound, cap) in PLAN[tier]:
-        us, npts = root_units(hname, mode, mods, bound, cap)
-        res.set(f"points_default_schedule/{hname}/{mode}", npts)
-        # split the DFS at the first deviation to use all cores
-        with xsched.Instrument(mode, xsched.CORE_MODULES if mods == "core" else xsched.DEEP_MODULES):
-            ex, _ = xsched.run_schedule(harness(hname), [])
-        choices = [p[3] for p in ex.points]
-        units.append((hname, mode, mods, bound, cap, "ROOT"))
-        for i, (_t, _l, n_en, _c, is_exit) in enumerate(ex.points):
-            cost = xsched.preemptions(ex.points, i) + (0 if is_exit else 1)
-            if cost > bound:
-                continue
-            for alt in range(1, n_en):
-                units.append((hname, mode, mods, bound, cap, tuple(choices[:i] + [alt])))
+    for entry in PLAN[tier]:
+        units += plan_units(res, entry)
     for w in pmap(_work_split, permuted(units, "c17"), chunk=1):
         res.merge_worker(w)
+    if res.cov.get("shared_sly_instances"):
+        res.set("escalated", True)
+        units = []
+        for entry in ESCALATION[tier]:
+            units += plan_units(res, entry)
+        for w in pmap(_work_split, permuted(units, "c17e"), chunk=4):
+            res.merge_worker(w)
     res.set("states", res.cov.get("points", 0))
     res.set("transitions", res.cov.get("schedules", 0))
     res.set("traces_validated_against_impl", res.cov.get("schedules", 0))
     res.set("plan", [list(p) for p in PLAN[tier]])
-    if res.cov.get("shared_sly_instances"):
-        res.caps.append("a lexer/parser/code generator instance was touched by two threads: SLY-internal steps do not commute; re-exploring with line points in sly/ language/ codegen/")
-        deep = [("H12", "line", "deep", 1, 4000, "ROOT"), ("H12", "line", "deep", 0, None, "ROOT")]
-        for w in pmap(_work_split, deep, chunk=1):
-            res.merge_worker(w)
     res.sample({"harness": "H3", "threads": 2, "bodies": "recompile(B); call(x0)", "oracle": "linearizability vs sequential evaluator model"})
     res.assumptions += ["CPython's GIL makes one bytecode atomic; C-level state (hashlib, re, pydantic-core) has no Python-visible sharing",
-                        "lexer / parser / code generator instances are thread-confined (measured on every schedule: shared_sly_instances must be 0), so their steps commute and need no scheduling points"]  # fmt: skip
+                        "lexer / parser / code generator instances are thread-confined (measured on every schedule: shared_sly_instances must be 0, otherwise exploration escalates to line points inside sly/ language/ codegen/), so their steps commute and need no scheduling points"]  # fmt: skip
 
 
 def _work_split(units):
